@@ -36,7 +36,7 @@ Proof.
 Qed.
 
 (* fixed point: with the accelerometer reading the exact image of gravity under q*, omega_mes = 0: the bias is untouched and
-   the quaternion is only integrated with (gyr - b); the same holds at -q* *)
+   the quaternion is only integrated with (gyr - b); the same holds at -q_true *)
 Lemma mahony_imu_fixed a b c d gx gy gz dt kp ki b0 b1 b2 : unit4 a b c d -> 0 < gx*gx+gy*gy+gz*gz ->
   let acc := img [a;b;c;d] [0;0;1] in
   C05_mahony_imu_R a b c d gx gy gz (e acc 0) (e acc 1) (e acc 2) dt kp ki b0 b1 b2
